@@ -169,7 +169,7 @@ def tokenInt (pf : Bytes → Fl) (buf : Bytes) : Int × NumErr :=
     -- switch abs, ok := jsonwire.ParseUint(buf[len("-"):]); { case abs > -minInt64: …; case ok: … }
     let (abs, ok) := parseUint (buf.drop 1)
     if abs > 9223372036854775808 then (-(2 ^ 63), .range)
-    else if ok then ((-1) * abs.toInt64.toInt, .none)
+    else if ok then (((-1 : Int64) * abs.toInt64).toInt, .none)      -- -1 * int64(abs), wrapping
     else (f64toi64 (pf buf), .syntax)
   else
     let (abs, ok) := parseUint buf
